@@ -481,12 +481,134 @@ theorem loadCookie_parts {jar : Jar} {name : Str} {vs : List Str}
   | a :: b :: rest, _ => rfl
 
 
-/-! ### the name matcher of `Clear` -/
+/-! ### the name matcher `isSessionCookieName` of `Clear` / `Save` -/
+
+theorem lastIndexOf_go_not_mem (c : Char) (x : Str) (h : c ∉ x) (i : Nat) (best : Option Nat) :
+    lastIndexOf.go c i best x = best := by
+  induction x generalizing i best with
+  | nil => rfl
+  | cons d ds ih =>
+    simp only [List.mem_cons, not_or] at h
+    simp only [lastIndexOf.go]
+    rw [if_neg (fun e => h.1 e.symm)]
+    exact ih h.2 _ _
+
+theorem lastIndexOf_go_append (c : Char) (a b : Str) (i : Nat) (best : Option Nat) :
+    lastIndexOf.go c i best (a ++ b) = lastIndexOf.go c (i + a.length) (lastIndexOf.go c i best a) b := by
+  induction a generalizing i best with
+  | nil => simp [lastIndexOf.go]
+  | cons d ds ih =>
+    simp only [List.cons_append, lastIndexOf.go, List.length_cons]
+    rw [ih]; congr 1; omega
+
+theorem lastIndexOf_append_sep (c : Char) (a x : Str) (h : c ∉ x) :
+    lastIndexOf c (a ++ c :: x) = some a.length := by
+  unfold lastIndexOf
+  rw [lastIndexOf_go_append]
+  simp only [lastIndexOf.go, if_true, Nat.zero_add]
+  exact lastIndexOf_go_not_mem c x h _ _
+
+theorem lastIndexOf_some_lt {c : Char} {s : Str} {idx : Nat} (h : lastIndexOf c s = some idx) :
+    idx < s.length := by
+  have key : ∀ (s : Str) (i : Nat) (best : Option Nat) (idx : Nat),
+      lastIndexOf.go c i best s = some idx → (best = some idx) ∨ (i ≤ idx ∧ idx < i + s.length) := by
+    intro s
+    induction s with
+    | nil => intro i best idx h; exact Or.inl h
+    | cons d ds ih =>
+      intro i best idx h
+      simp only [lastIndexOf.go] at h
+      rcases ih _ _ _ h with h' | ⟨h1, h2⟩
+      · split at h'
+        · right; simp at h'; subst h'; simp
+        · exact Or.inl h'
+      · right; simp only [List.length_cons]; omega
+  rcases key s 0 none idx h with h' | ⟨_, h2⟩
+  · simp at h'
+  · omega
+
+theorem digitsToNat_eq (s : Str) : digitsToNat s = Nat.ofDigitChars 10 s 0 := by
+  unfold digitsToNat Nat.ofDigitChars
+  congr 1
+  funext acc c
+  rw [Nat.mul_comm]; rfl
+
+theorem digitsToNat_natToStr (i : Nat) : digitsToNat (natToStr i) = i := by
+  rw [digitsToNat_eq, natToStr_eq]; simp
+
+theorem atoi_natToStr {i : Nat} (h : i ≤ 9223372036854775807) : atoi (natToStr i) = some (i : Int) := by
+  have hne := natToStr_ne_nil i
+  have hall := natToStr_all_isDigit i
+  unfold atoi
+  cases hs : natToStr i with
+  | nil => exact absurd hs hne
+  | cons d ds =>
+    have hd : isDigit d = true := by
+      rw [hs] at hall; simp at hall; exact hall.1
+    have hm : d ≠ '-' := by intro e; subst e; simp [isDigit] at hd
+    have hp : d ≠ '+' := by intro e; subst e; simp [isDigit] at hd
+    have hdn := digitsToNat_natToStr i
+    rw [hs] at hdn hall
+    split
+    rename_i x neg ds' heq
+    split at heq
+    · rename_i r he; simp at he; exact absurd he.1 hm
+    · rename_i r he; simp at he; exact absurd he.1 hp
+    · simp only [Prod.mk.injEq] at heq
+      obtain ⟨rfl, rfl⟩ := heq
+      simp only [List.isEmpty_cons, Bool.false_or, hall, Bool.not_true, Bool.false_eq_true, if_false, hdn]
+      simp [h]
+
+theorem atoi_le {s : Str} {c : Int} (h : atoi s = some c) : c ≤ 9223372036854775807 := by
+  unfold atoi at h
+  split at h <;> simp only at h <;> split at h <;> try (simp at h)
+  all_goals (split at h <;> simp at h <;> omega)
+
 
 theorem matchesSessionName_iff (name n : Str) :
     matchesSessionName name n = true ↔
+      n = name ∨ ∃ i : Nat, i ≤ 9223372036854775807 ∧ n = splitCookieName name i := by
+  unfold matchesSessionName
+  simp only [Bool.or_eq_true, beq_iff_eq]
+  constructor
+  · rintro (h | h)
+    · exact Or.inl h
+    · right
+      split at h
+      · simp at h
+      · rename_i idx _
+        split at h
+        · simp at h
+        · rename_i count hc
+          simp only [Bool.and_eq_true, decide_eq_true_eq, beq_iff_eq] at h
+          refine ⟨count.toNat, ?_, h.2⟩
+          have := atoi_le hc
+          omega
+  · rintro (h | ⟨i, hi, rfl⟩)
+    · exact Or.inl h
+    · right
+      obtain ⟨k, hk⟩ := splitCookieName_form name i
+      have hl : lastIndexOf '_' (splitCookieName name i) = some (name.take k).length := by
+        rw [hk]; exact lastIndexOf_append_sep '_' _ _ (underscore_not_mem_natToStr i)
+      have hd : (splitCookieName name i).drop ((name.take k).length + 1) = natToStr i := by
+        rw [hk, show name.take k ++ '_' :: natToStr i = (name.take k ++ ['_']) ++ natToStr i by simp]
+        exact List.drop_left' (by simp)
+      simp only [hl, hd, atoi_natToStr hi]
+      simp
+
+theorem matchesSessionName_self (name : Str) : matchesSessionName name name = true :=
+  (matchesSessionName_iff name name).2 (Or.inl rfl)
+
+/-- every part name whose counter fits a Go `int` is recognised — truncated or not -/
+theorem matchesSessionName_part (name : Str) {i : Nat} (h : i ≤ 9223372036854775807) :
+    matchesSessionName name (splitCookieName name i) = true :=
+  (matchesSessionName_iff _ _).2 (Or.inr ⟨i, h, rfl⟩)
+
+/-- the pre-fix regular-expression matcher -/
+theorem matchesSessionNameRegex_iff (name n : Str) :
+    matchesSessionNameRegex name n = true ↔
       n = name ∨ ∃ ds : Str, ds ≠ [] ∧ ds.all isDigit = true ∧ n = name ++ '_' :: ds := by
-  unfold matchesSessionName hasPrefix
+  unfold matchesSessionNameRegex hasPrefix
   simp only [Bool.or_eq_true, beq_iff_eq, Bool.and_eq_true, List.isPrefixOf_iff_prefix]
   constructor
   · rintro (h | ⟨⟨t, rfl⟩, h⟩)
@@ -504,16 +626,6 @@ theorem matchesSessionName_iff (name n : Str) :
       refine ⟨⟨_, rfl⟩, ?_⟩
       rw [List.drop_left]
       simp [h1, h2]
-
-theorem matchesSessionName_self (name : Str) : matchesSessionName name name = true :=
-  (matchesSessionName_iff name name).2 (Or.inl rfl)
-
-theorem matchesSessionName_part {name : Str} {i : Nat}
-    (h : name.length + 1 + (natToStr i).length ≤ 256) :
-    matchesSessionName name (splitCookieName name i) = true := by
-  rw [splitCookieName_of_le h]
-  exact (matchesSessionName_iff _ _).2
-    (Or.inr ⟨natToStr i, natToStr_ne_nil i, natToStr_all_isDigit i, rfl⟩)
 
 /-! ### makeSessionCookies -/
 
@@ -593,36 +705,44 @@ theorem jarGet_apply_sets (pre : List SetCookie) (ps : List (Str × Str)) (jar :
 
 /-! ### shape of the session cookies in the jar -/
 
-/-- `Shape name jar cur`: among the names the matcher `name(_N)?` recognises, the jar holds
+/-- the collision of a part name with the base name (a 256-byte name ending in `_<digits>` is
+    its own part `i`) does not occur -/
+def NoCollision (name : Str) : Prop := ∀ i, splitCookieName name i ≠ name
+
+theorem noCollision_of_length {name : Str} (h : name.length ≤ 255) : NoCollision name :=
+  fun i => splitCookieName_ne_name h i
+
+/-- `Shape name jar cur`: among the names `isSessionCookieName` recognises, the jar holds
     nothing (`cur = none`), exactly the unsplit cookie, or exactly the parts `name_0 … name_{k-1}`
-    (`k ≥ 2`, untruncated names) whose values concatenate to the session value. -/
+    (`k ≥ 2`, `k` within the Go `int` range) whose values concatenate to the session value. -/
 inductive Shape (name : Str) (jar : Jar) : Option Str → Prop
   | empty : (∀ n, matchesSessionName name n = true → jarGet jar n = none) → Shape name jar none
   | single (v : Str) : jarGet jar name = some v →
       (∀ n, matchesSessionName name n = true → n ≠ name → jarGet jar n = none) →
       Shape name jar (some v)
-  | parts (vs : List Str) : 2 ≤ vs.length → NoTrunc name vs.length →
+  | parts (vs : List Str) : 2 ≤ vs.length → vs.length ≤ 9223372036854775807 →
       (∀ i (h : i < vs.length), jarGet jar (splitCookieName name i) = some vs[i]) →
       (∀ n, matchesSessionName name n = true →
           (∀ i, i < vs.length → n ≠ splitCookieName name i) → jarGet jar n = none) →
       Shape name jar (some vs.flatten)
 
-theorem Shape.load {name : Str} {jar : Jar} {cur : Option Str} (h0 : NoTrunc name 0)
-    (h : Shape name jar cur) : loadCookie jar name = cur.map (fun v => (name, v)) := by
-  have hlen : name.length ≤ 254 := by
-    have := h0 0 (Nat.le_refl _)
-    have := natToStr_length_pos 0
-    omega
+/-- nothing loads from a jar without session cookies — for every cookie name -/
+theorem Shape.load_none {name : Str} {jar : Jar} (h : Shape name jar none) :
+    loadCookie jar name = none := by
   cases h with
   | empty hnone =>
     exact loadCookie_none (hnone _ (matchesSessionName_self name))
-      (hnone _ (matchesSessionName_part (h0 0 (Nat.le_refl _))))
+      (hnone _ (matchesSessionName_part name (by decide)))
+
+theorem Shape.load {name : Str} {jar : Jar} {cur : Option Str} (hnc : NoCollision name)
+    (h : Shape name jar cur) : loadCookie jar name = cur.map (fun v => (name, v)) := by
+  cases h with
+  | empty hnone => exact (Shape.empty hnone).load_none
   | single v hv _ => exact loadCookie_exact hv
-  | parts vs h2 hnt hparts hnone =>
+  | parts vs h2 hmax hparts hnone =>
     apply loadCookie_parts _ hparts _ h2
-    · exact hnone _ (matchesSessionName_self name)
-        (fun i _ he => splitCookieName_ne_name (by omega) i he.symm)
-    · exact hnone _ (matchesSessionName_part (hnt _ (Nat.le_refl _)))
+    · exact hnone _ (matchesSessionName_self name) (fun i _ he => hnc i he.symm)
+    · exact hnone _ (matchesSessionName_part name hmax)
         (fun i hi he => by have := splitCookieName_inj he; omega)
 
 theorem apply_saveFixed_general (name : Str) (ps : List (Str × Str)) (jar : Jar)
@@ -669,11 +789,11 @@ theorem save_of_ok {maxLen A : Nat} {name v : Str} {ps : List (Str × Str)}
 
 /-- After a fixed `Save` the session part of the jar is exactly the new session, whatever the
     browser held before. -/
-theorem shape_saveFixed {maxLen A : Nat} {name v : Str} (hnt : NoTrunc name v.length)
+theorem shape_saveFixed {maxLen A : Nat} {name v : Str} (hname : name.length ≤ 256)
+    (hlen : v.length ≤ 9223372036854775807)
     (hp : Progress maxLen A name v.length) (jar : Jar) :
     ∃ cs, saveFixed maxLen A name v jar = .ok cs ∧
       Shape name (applySetCookies jar cs) (some v) := by
-  have hname : name.length ≤ 256 := by have := hnt 0 (Nat.zero_le _); omega
   rcases makeSessionCookies_spec hname hp with ⟨_, hmk⟩ | ⟨_, ps, hmk, hok, h2⟩
   · refine ⟨_, saveFixed_of_ok jar hmk, ?_⟩
     obtain ⟨h1, hrest⟩ := apply_saveFixed_general name [(name, v)] jar (by simp)
@@ -684,10 +804,11 @@ theorem shape_saveFixed {maxLen A : Nat} {name v : Str} (hnt : NoTrunc name v.le
   · refine ⟨_, saveFixed_of_ok jar hmk, ?_⟩
     obtain ⟨h1, hrest⟩ := apply_saveFixed_general name ps jar hok.names_nodup
     have hsh := Shape.parts (name := name)
-      (jar := applySetCookies jar ((jar.filter (fun p => matchesSessionName name p.1 && !(ps.map Prod.fst).contains p.1)).map
+      (jar := applySetCookies jar
+        ((jar.filter (fun p => matchesSessionName name p.1 && !(ps.map Prod.fst).contains p.1)).map
           (fun p => ⟨p.1, [], true⟩) ++ ps.map toSet))
       (ps.map Prod.snd) (by simpa using h2)
-      (fun i hi => hnt i (by have := hok.len_le; simp at hi; omega))
+      (by have := hok.len_le; simp only [List.length_map]; omega)
       (by
         intro i hi
         simp only [List.length_map] at hi
